@@ -34,21 +34,31 @@ def test_summary(out):
 def confirm(wt, x, features=""):
     seed = os.path.join(wt, "SEEDS", x)
     patch = os.path.join(seed, "patch.diff")
-    demo = os.path.join(seed, "demo.rs")
+    demo_rs = os.path.join(seed, "demo.rs")
+    demo_sh = os.path.join(seed, "demo.sh")
     feat = ("--features " + features) if features else ""
     rc, out = sh("git status --porcelain --untracked-files=no", wt)
     assert out.strip() == "", "worktree has tracked modifications: " + out
     demo_dst = os.path.join(wt, "tests", "zz_seed_demo.rs")
-    res = {}
+    use_sh = os.path.exists(demo_sh)
+
+    def run_demo():
+        if use_sh:
+            rc, out = sh("bash %s 2>&1" % demo_sh, wt)
+            return rc, out[-300:].replace("\n", " | ")
+        shutil.copyfile(demo_rs, demo_dst)
+        try:
+            rc, out = sh("cargo test --offline %s --test zz_seed_demo 2>&1" % feat, wt)
+            return rc, test_summary(out)
+        finally:
+            os.remove(demo_dst)
+
+    res = {"demo": "demo.sh" if use_sh else "demo.rs"}
     try:
-        shutil.copyfile(demo, demo_dst)
-        rc, out = sh("cargo test --offline %s --test zz_seed_demo 2>&1" % feat, wt)
-        res["demo_without_change"] = (rc, test_summary(out))
+        res["demo_without_change"] = run_demo()
         rc, out = sh("git apply %s" % patch, wt)
         assert rc == 0, "patch does not apply: " + out
-        rc, out = sh("cargo test --offline %s --test zz_seed_demo 2>&1" % feat, wt)
-        res["demo_with_change"] = (rc, test_summary(out))
-        os.remove(demo_dst)
+        res["demo_with_change"] = run_demo()
         rc, out = sh("cargo test --workspace --no-fail-fast --offline 2>&1", wt)
         res["suite_with_change"] = (rc, test_summary(out))
         rc, out = sh("cargo test --workspace --no-fail-fast --offline --features events 2>&1", wt)
@@ -57,7 +67,8 @@ def confirm(wt, x, features=""):
         if os.path.exists(demo_dst):
             os.remove(demo_dst)
         sh("git checkout -- .", wt)
-    ok = (res["demo_without_change"][0] == 0 and res["demo_with_change"][0] != 0 and res["suite_with_change"][0] == 0)
+        sh("git clean -fdq tests examples", wt)
+    ok = (res["demo_without_change"][0] == 0 and res["demo_with_change"][0] != 0 and res["suite_with_change"][0] == 0 and res["suite_with_change_events"][0] == 0)
     print(json.dumps(res))
     print("CONFIRMED" if ok else "NOT CONFIRMED")
     return ok
@@ -84,7 +95,7 @@ def keep(wt, x, sid, prop, needs, ran):
     src = os.path.join(wt, "SEEDS", x)
     dst = os.path.join(VERIF, "seeded", sid)
     os.makedirs(dst, exist_ok=True)
-    for f in ("patch.diff", "demo.rs", "NOTES.md"):
+    for f in ("patch.diff", "demo.rs", "demo.sh", "NOTES.md"):
         if os.path.exists(os.path.join(src, f)):
             shutil.copyfile(os.path.join(src, f), os.path.join(dst, f))
     meta = {"id": sid, "breaks_property": prop, "needs_to_manifest": needs, "confirmed_by": ran}
